@@ -34,6 +34,18 @@ def run(c):
                     cases.append((params, ("prio", "driver")))
     recs = pe.run_cases(c, cases, f"vocabulary tour x {len(SPELLS)} root spellings x 2 observers, odd file names")
     pe.validate(c, "C19", recs)
+    # names under which the path of a renamed directory re-occurs textually inside a descendant's path when the root is
+    # given relative ("R/b/xR/b" contains "R/b" twice): every component of the synthetic events must still be exact
+    reocc = {"a": "a", "b": "b", "x": "xR", "y": "R", "f": "bq"}
+    cases = []
+    for spell in ("rel", "relbytes", "str"):
+        for ops in ([["rename", "a", "b"], ["drain"]], [["rename", "a", "b"], ["drain"], ["rename", "b", "y"], ["drain"]],
+                    [["moveout", "a", "z1"], ["drain"], ["movein", "z1", "b"], ["drain"]]):
+            params = {"start": [["a", "d"], ["a/x", "d"], ["a/x/f", "f"], ["a/x/y", "d"], ["a/x/y/f", "f"]], "outside": [],
+                      "ops": ops, "recursive": True, "paced": True, "names": reocc, "spell": spell, "observer": "inotify", "final_probe": True}
+            cases += [(params, ("prio", "library")), (params, ("prio", "driver"))]
+    recs = pe.run_cases(c, cases, "directory paths re-occurring inside descendants' paths (relative root)")
+    pe.validate(c, "C19", recs)
     K = 3 if c.thorough else 2
     cases = []
     for start in ("small", "deep"):
